@@ -28,6 +28,10 @@ class SimNet:
         self.send_calls = []  # (sock_name, offered, accepted)
         self.refuse_connect = False
         self._fileno = 1000
+        # local (addr, port) -> virtual time until which a connection closed first by this side lingers in TIME_WAIT:
+        # bind() to it fails with EADDRINUSE unless SO_REUSEADDR was set on the binding socket BEFORE bind (Linux)
+        self.time_wait = {}
+        self.time_wait_s = 60.0
 
     def activity(self):
         self.sim.wake_all(self.waiters)
@@ -35,6 +39,7 @@ class SimNet:
     # peer-side helpers (usable from the controller)
     def listen(self, addr, port):
         s = SimSocket(self, "peer-listener")
+        s.reuseaddr = True
         s.bind((addr, port))
         s.listen(1)
         return s
@@ -64,6 +69,8 @@ class SimSocket:
         self.total_sent = 0
         self.total_received = 0
         self.linger0 = False
+        self.reuseaddr = False
+        self.local_addr = None  # accepted sockets: the listener's (addr, port)
         self.tx_times = []  # (cumulative bytes sent, virtual time) per send call
         net._fileno += 1
         self._fd = net._fileno
@@ -77,6 +84,8 @@ class SimSocket:
 
     def setsockopt(self, *a):
         self._check()
+        if len(a) == 3 and a[0] == _rsocket.SOL_SOCKET and a[1] == _rsocket.SO_REUSEADDR:
+            self.reuseaddr = bool(a[2]) if not isinstance(a[2], (bytes, bytearray)) else any(a[2])
         # SO_LINGER with l_onoff=1, l_linger=0: close() aborts the connection (RST) and discards what the peer has not read
         if len(a) == 3 and a[0] == _rsocket.SOL_SOCKET and a[1] == _rsocket.SO_LINGER and isinstance(a[2], (bytes, bytearray)) and len(a[2]) >= 8:
             onoff, secs = struct.unpack("ii", bytes(a[2][:8]))
@@ -98,6 +107,8 @@ class SimSocket:
         self._check()
         if addr in self.net.listeners and not self.net.listeners[addr].closed:
             raise OSError(errno.EADDRINUSE, "Address already in use")
+        if not self.reuseaddr and self.net.time_wait.get(addr, -1.0) > self.net.sim.now:
+            raise OSError(errno.EADDRINUSE, "Address already in use")  # a connection of this port is in TIME_WAIT
         self.addr = addr
 
     def listen(self, n=1):
@@ -133,6 +144,7 @@ class SimSocket:
         if self.net.refuse_connect or lst is None or lst.closed or not lst.listening:
             raise ConnectionRefusedError(errno.ECONNREFUSED, "Connection refused")
         other = SimSocket(self.net, self.name + "-accepted")
+        other.local_addr = addr
         other.peer = self
         self.peer = other
         lst.backlog.append(other)
@@ -222,6 +234,9 @@ class SimSocket:
                 if s.peer is not None:
                     s.peer.reset = True
         if self.peer is not None:
+            if self.local_addr is not None and not self.eof and not self.peer.closed and not self.linger0:
+                # this side closes first (no FIN from the peer yet): its end of the connection goes to TIME_WAIT
+                self.net.time_wait[self.local_addr] = self.net.sim.now + self.net.time_wait_s
             self.peer.eof = True
             if self.rx:  # unread data at close -> RST towards the peer
                 self.peer.reset = True
